@@ -242,12 +242,14 @@ def body_parser(I, X, framing="CRLF", boundary="b", n=2, kind="field", buffer_si
         else:
             good = len(ref[1]) == 1 and peq(ref[1][0][1], payload.decode("utf-8", "replace"))
         ok = pand(ok, pimplies(clean, good))
-    obs = {"ref": ref[:3], "got": got[:3], "reads": got[3]}
+    # (the interpreter evaluates the _chunk_iter generator eagerly, so the number of reads
+    # before a parse error differs from CPython's lazy evaluation: reported only on success)
+    obs = {"ref": ref[:3], "got": got[:3], "reads": got[3] if got[0] is None else None}
     return ok, obs
 
 
 def obligations(tier, seed):
-    out = _decoder_obligations(tier, seed) + _long_first_obligations(tier, seed)
+    out = _decoder_obligations(tier, seed) + _long_first_obligations(tier, seed) + _long_boundary_obligations(tier, seed)
     for framing, K in NL.items():
         for kind in ("field", "file"):
             if kind == "file":
@@ -294,6 +296,26 @@ def _long_first_obligations(tier, seed):
                     "body": "body_decoder",
                     "params": {"framing": framing, "boundary": "b", "n": n, "bodyless": bodyless, "parts_after": True,
                                "cuts": [c], "long_first": True},
+                    "opts": {"budget_s": 600},
+                })
+    return out
+
+
+def _long_boundary_obligations(tier, seed):
+    """a realistic (long) boundary: the incremental searches of the PREAMBLE / PART states only
+    re-scan a retained tail whose size depends on len(boundary)"""
+    out = []
+    boundary = b"----long-boundary-0123456789"
+    framings = ["CRLF"] if tier == "quick" else ["CRLF", "LF", "CR"]
+    for framing in framings:
+        K = NL[framing]
+        for n in ([1] if tier == "quick" else [0, 2, 3]):
+            total = len(build_body(K, boundary, b"x" * n, True, False))
+            for c in range(0, total + 1):
+                out.append({
+                    "name": f"decoder-long-boundary[{framing},n={n},cuts=({c},)]",
+                    "body": "body_decoder",
+                    "params": {"framing": framing, "boundary": boundary.decode(), "n": n, "bodyless": False, "parts_after": True, "cuts": [c]},
                     "opts": {"budget_s": 600},
                 })
     return out
